@@ -360,8 +360,8 @@ func (fv *FuncVC) canInline(fr *Frame, callee *ssa.Function, con *Contract) bool
 	if con != nil && con.Opaque {
 		return false
 	}
-	if p := pkgOf(callee); p == nil || !(isModulePkg(p) || strings.HasPrefix(p.Path(), "github.com/nyaruka/gocommon")) {
-		return false
+	if p := pkgOf(callee); p == nil || !(isModulePkg(p) || strings.HasPrefix(p.Path(), "github.com/nyaruka/gocommon")) || strings.Contains(p.Path(), "/antlr/gen/") {
+		return false // dependencies and the ANTLR-generated parsers are never inlined
 	}
 	if fr.depth >= fv.maxInlineDepth {
 		return false
